@@ -48,6 +48,8 @@ fn main() {
         "fault" => scen::fault::main(&args),
         "sched" => scen::sched::main(&args),
         "crash" => scen::crash::main(&args),
+        "fixture" => scen::fixture::main(&args),
+        "mkfixture" => scen::fixture::make(&args),
         "crashchild" => scen::crash::child(&args),
         _ => {
             eprintln!("usage: tcs-harness <hist|…> --out FILE [--seed N] …");
